@@ -15,9 +15,11 @@ CLAIMED = {
 }
 
 FAMILY_NOTE = ('Trusted: z3, dd node accessors, the argument that a rigid-table family run is pointwise the run of '
-               'each member (DESIGN.md 2.4), the explicit unrolled reference (validated on every run against an '
-               'independent Zielonka parity / reachability / safety solver on seeded concrete games). Bounds: families '
-               'of 2-3 state bits, 1-2 goals/holds, unrolling |states|+2.')
+               'each member (DESIGN.md 2.4; it does not cover loop termination, so seeded members are also run one by '
+               'one through the real code and compared with the explicit solvers), the explicit unrolled reference '
+               '(validated on every run against an independent Zielonka parity / reachability / safety solver on seeded '
+               'concrete games). Bounds: table families of 2 state bits (3 for one-step operators), 1-2 goals/holds '
+               '(3 goals per member), integer template families with rigid integer constants, unrolling |states|+2.')
 CLAIMED.update({
     'C01': ('model_checking',
             'one real run of gr1.solve_streett_game on a rigid-table game family; z3 equivalence of the exported winning-region BDD with an unrolled explicit-state mu-calculus reference, for all games of the family and all states; counterexample members replayed against a Zielonka solver',
@@ -33,9 +35,11 @@ CLAIMED.update({
             FAMILY_NOTE + ' attractor(inside=) is claimed for targets within `inside`.', 'DESIGN.md §3 C11'),
 })
 
-TRANS_NOTE = ('Trusted: z3, dd node accessors, family = member pointwise (self-checked on seeded members in each run). '
-              'Bounds: 2-state-bit table families, 1-2 goals/holds, EnvInit := Win with qinit \\A \\A (every winning '
-              'state initial); product spaces <= 32 explicit states for the fair-cycle query.')
+TRANS_NOTE = ('Trusted: z3, dd node accessors, family = member pointwise (self-checked on seeded members in each run; '
+              'seeded members with up to 3 goals / 2 persistence predicates are also constructed one by one and checked by '
+              'enumeration). Bounds: 2-state-bit table families, 1-2 goals/holds, EnvInit := Win with qinit \\A \\A (every '
+              'winning state initial); product spaces <= 32 explicit states for the fair-cycle query. Rabin(1): one-step '
+              'obligations are stated on the exact set of reachable product states.')
 CLAIMED.update({
     'C02': ('model_checking',
             'real gr1.make_streett_transducer run once per rigid-table game family; z3 discharges init / safety / closure / non-blocking / semantic Moore-independence one-step obligations and an unrolled Emerson-Lei fair-cycle query on explicit product states, all table constants existential; counterexample members rebuilt and checked by enumeration',
